@@ -19,10 +19,12 @@ VARIABLES freshN,     \* number of strictly increasing heartbeat values observed
           ftimes,     \* ticks of the most recent (at most Window + 2) fresh observations
           deadEval,   \* tick of the last evaluation that found x dead or unknown (-1: none)
           rep,        \* tick of the last heartbeat of x's current incarnation REPORTED to the detector (-1: none)
-          usable      \* usable intervals (two reported heartbeats at most MaxInterval apart) accepted since the
+          usable,     \* usable intervals (two reported heartbeats at most MaxInterval apart) accepted since the
                       \* last evaluation that found x dead or unknown
+          gwin        \* those intervals themselves (the last Window of them): the sampling window as the EVENTS
+                      \* determine it -- reported heartbeats and evaluation verdicts only, no implementation state
 
-dvars == <<vars, freshN, freshAt, topHb, arrivals, ftimes, deadEval, rep, usable>>
+dvars == <<vars, freshN, freshAt, topHb, arrivals, ftimes, deadEval, rep, usable, gwin>>
 \* ftimes / deadEval are read by C11_SteadyObs only, which is evaluated on real traces (TraceDetector,
 \* ObserveDetector), not in the exhaustive model runs: they stay out of the model's fingerprint
 DView == <<vars, freshN, freshAt, topHb, arrivals>>
@@ -31,9 +33,9 @@ O == "n1"
 X == "x"
 
 GhostInit == freshN = 0 /\ freshAt = -1 /\ topHb = 0 /\ arrivals = 0 /\ ftimes = <<>> /\ deadEval = -1
-             /\ rep = -1 /\ usable = 0
+             /\ rep = -1 /\ usable = 0 /\ gwin = <<>>
 GhostReset == freshN' = 0 /\ freshAt' = -1 /\ topHb' = 0 /\ arrivals' = 0 /\ ftimes' = <<>> /\ deadEval' = -1
-              /\ rep' = -1 /\ usable' = 0
+              /\ rep' = -1 /\ usable' = 0 /\ gwin' = <<>>
 DInit == Init /\ GhostInit
 
 PushTime(f, t) == IF Len(f) >= Window + 2 THEN Append(Tail(f), t) ELSE Append(f, t)
@@ -50,12 +52,16 @@ GhostArrive(h, now) ==
   /\ LET reported == X \in DOMAIN st[O].ns /\ st[O].ns[X].hb > 0 /\ h > st[O].ns[X].hb IN
      /\ rep' = IF reported THEN now ELSE rep
      /\ usable' = IF reported /\ rep >= 0 /\ now - rep <= MaxInterval THEN usable + 1 ELSE usable
+     /\ gwin' = IF reported /\ rep >= 0 /\ now - rep <= MaxInterval
+                THEN (IF Len(gwin) >= Window THEN Append(Tail(gwin), now - rep) ELSE Append(gwin, now - rep))
+                ELSE gwin
 GhostEval(now) ==
   /\ UNCHANGED <<freshN, freshAt, topHb, arrivals, ftimes>>
   /\ deadEval' = IF X \in st'[O].live THEN deadEval ELSE now
   /\ usable' = IF X \in st'[O].live THEN usable ELSE 0
+  /\ gwin' = IF X \in st'[O].live THEN gwin ELSE <<>>
   /\ rep' = IF X \in DOMAIN st'[O].ns THEN rep ELSE -1
-GhostSame == UNCHANGED <<freshN, freshAt, topHb, arrivals, ftimes, deadEval, rep, usable>>
+GhostSame == UNCHANGED <<freshN, freshAt, topHb, arrivals, ftimes, deadEval, rep, usable, gwin>>
 
 SynFor(h) == [t |-> "Syn", src |-> "r", dst |-> O, cluster |-> Cluster[O],
               digest |-> [y \in {X} |-> [hb |-> h, gc |-> 0, max |-> 0]]]
@@ -115,24 +121,18 @@ C11_Steady ==
             m == IF a < Prior THEN a ELSE Prior
         IN (b <= MaxInterval /\ PhiN * m >= PhiD * b) => IsLive2) ]_<<dvars, hist>>
 
-\* C11 (iii) stated on observable evidence only: the last (at most Window + 1) gaps between fresh
-\* heartbeats that are short enough to be sampled all lie in [a, b], the newest gap is sampled, the
-\* member was not found dead since its newest fresh heartbeat, silence <= b <= max_interval, and
-\* phi >= b / min(a, initial_interval)  ==>  live after this evaluation
+\* C11 (iii) stated on observable evidence only: gwin is the sampling window as the logged events determine it
+\* (intervals between REPORTED heartbeats at most max_interval apart, the last Window of them, emptied by every
+\* evaluation that finds the member dead), rep the tick of the last reported heartbeat.  All intervals in
+\* [a, b], silence <= b <= max_interval and phi >= b / min(a, initial_interval)  ==>  live after this evaluation
 Gaps == {ftimes[i + 1] - ftimes[i] : i \in 1..(Len(ftimes) - 1)}
 C11_SteadyObs ==
-  [][ Resetting \/ ((EvalNow /\ Len(ftimes) >= 3) =>
-        LET n == Len(ftimes)
-            sampled == {g \in Gaps : g <= MaxInterval}
-            a == MinOf(sampled)
-            b == MaxOf(sampled \cup {clock - ftimes[n]})
+  [][ Resetting \/ ((EvalNow /\ gwin # <<>> /\ rep >= 0) =>
+        LET ivs == {gwin[i] : i \in 1..Len(gwin)}
+            a == MinOf(ivs)
+            b == MaxOf(ivs \cup {clock - rep})
             m == IF a < Prior THEN a ELSE Prior
-        IN (/\ Gaps = sampled        \* no unsampled gap among the retained ones: the window (at most Window
-                                   \* samples) then holds nothing older than these gaps
-            /\ ftimes[n] - ftimes[n - 1] <= MaxInterval
-            /\ deadEval < ftimes[n]
-            /\ b <= MaxInterval
-            /\ PhiN * m >= PhiD * b) => IsLive2) ]_<<dvars, hist>>
+        IN (b <= MaxInterval /\ PhiN * m >= PhiD * b) => IsLive2) ]_<<dvars, hist>>
 
 DEmitEdge == PrintT("EDGE " \o ToJson([steps |-> hist', expect |-> [nodes |-> Views']]))
 ===============================================================================
